@@ -13,6 +13,7 @@
          written to `wrap_static_fns_path` with `.c` / `.cpp`, errors are propagated by the driver.
   R16.4  `CSerialize for Type` handles the kinds the feature promises, returns `Err` for the others and never
          panics; `Item` dispatches functions to `CSerialize for Function`.
+  R16.6  every fresh `CodegenResult` either reaches `serialize_items` or merges its `items_to_serialize` into its parent.
   R16.5  the wrapper text, obtained by abstractly executing `CSerialize for Function` in the four worlds
          (va_list wrapper or not) x (void or not): header `<ret> <name+suffix>(<params>`, one forwarded call
          `<name>(<names>);` whose names come from the same list in the same order, value returned, braces closed.
@@ -385,7 +386,7 @@ def local_id(n):
 
 
 def short(body):
-    p = body.path
+    p = re.sub(r"::<[^<>]*>", "", body.path)
     m = re.match(r"<(.+?) as (.+?)>::(\w+)$", p)
     if m:
         return "%s::%s" % (m.group(1).split("::")[-1].split("<")[0], m.group(3))
@@ -1596,3 +1597,49 @@ def r16_5(rep):
     oks = bool(seps_w) and all(loops and any(a is loops[0] for a in pb.ancestors(c)) and in_loop and c["_i"] < in_loop[0]["_i"] and mentions(pb, c["args"][0], "param") is False for c in seps_w) and \
         all(any(x.get("k") == "Local" and x["id"] == pb.params[0].get("id") for x in pb.walk(resolve(pb, c["args"][0]))) or local_id(c["args"][0]) is not None for c in seps_w)
     rep.check(oks, "separator-between-elements@serialize_sep", "the separator is written inside the loop before each further element", pb.loc(pb.root))
+
+
+def check_queue_survives(rep):
+    """Every body that makes a fresh CodegenResult either hands it to serialize_items or merges its
+    `items_to_serialize` into another CodegenResult (unconditionally)."""
+    prog = rep.prog
+    n_found = 0
+    for bb in prog.bodies.values():
+        news = [c for c in bb.calls(lambda n: n["k"] == "Call" and re.search(r"codegen::CodegenResult(::<[^>]*>)?::new$", callee(n)))]
+        for c in news:
+            n_found += 1
+            let = None
+            for a in bb.ancestors(c):
+                if a["k"] == "Let" and a["pat"].get("k") == "Bind":
+                    let = a
+                    break
+            key = "queue-survives@" + short(bb)
+            if let is None:
+                rep.bad(key, "a fresh CodegenResult is not bound to a local: cannot follow its items_to_serialize", bb.loc(c))
+                continue
+            lid = let["pat"]["id"]
+            to_ser = [x for x in bb.calls(lambda n: n["k"] == "Call" and callee(n) == "codegen::utils::serialize_items")
+                      if any(y.get("k") == "Local" and y["id"] == lid for y in bb.walk(x["args"][0]))]
+            if to_ser:
+                rep.ok(key, "the CodegenResult is handed to serialize_items", bb.loc(c))
+                continue
+            merges = []
+            for m in bb.calls(lambda n: n["k"] == "MCall" and n["name"] in ("append", "extend", "extend_from_slice")):
+                r = strip(m["recv"])
+                if r.get("k") == "Field" and r.get("adt") == RESULT and r["f"] == "items_to_serialize" and local_id(r["base"]) != lid:
+                    src = [y for y in bb.walk(m["args"][0]) if y.get("k") == "Field" and y.get("adt") == RESULT and y["f"] == "items_to_serialize" and local_id(y["base"]) == lid]
+                    if src and not [g for g in bb.guards(m) if g[1] in ("cond", "arm")]:
+                        merges.append(m)
+            rep.check(bool(merges), key, "items_to_serialize of the inner CodegenResult is %s" %
+                      ("appended to the outer one" if merges else "dropped: functions queued inside a module generated through it get a "
+                       "binding (`--enable-cxx-namespaces`: every module, including the root) but no wrapper"), bb.loc(c))
+    return n_found
+
+
+@RULES.rule("R16.6", "functions queued for wrapping survive nested CodegenResults", floor=2)
+def r16_6(rep):
+    """Necessary: `serialize_items` only sees the outermost CodegenResult.  Breaking edit: `CodegenResult::inner` not
+    appending `new.items_to_serialize` — with `--enable-cxx-namespaces` the binding links against foo__extern and no
+    wrapper file is written (the defect repaired by the `fix:` commit for C01/C16)."""
+    n = check_queue_survives(rep)
+    rep.need(n > 0, "a `CodegenResult::new` call")
